@@ -222,10 +222,10 @@ class TokenScanner:
 
     def _pop_as_parenthesis(self) -> AMTBase:
         """将指针向后移动 1 个元素，并返回当前指针位置的插入语节点；如果当前指针位置不是插入语节点，则抛出异常"""
-        node = self.pop()
+        node = self.get_offset()
         if isinstance(node, AMTSingle):
             raise SqlParseError(f"当前指针位置不是插入语节点：{node}")
-        return node
+        return self.pop()
 
     def pop_as_children_scanner(self) -> "TokenScanner":
         """将指针向后移动 1 个元素，并返回当前指针位置的插入语节点的子节点的扫描器"""
